@@ -323,6 +323,11 @@ func (e *Encoder) resolveLocal(name string, blk *ssa.BasicBlock, st *State) (Val
 			switch in := b.Instrs[i].(type) {
 			case *ssa.DebugRef:
 				if id, ok := in.Expr.(interface{ String() string }); ok && id.String() == name {
+					// (go/ssa also emits a debug reference for the field identifier of a selector x.f: that is
+					// not a variable called f)
+					if fv, isVar := in.Object().(*types.Var); isVar && fv.IsField() {
+						continue
+					}
 					// a captured variable of a closure always denotes the address of its cell (write *x), wherever
 					// the contract expression is evaluated: debug references to its loaded value are not used
 					if _, isFV := in.X.(*ssa.FreeVar); isFV {
